@@ -131,6 +131,9 @@ def sinks(project, fn, per_class, by_attr):
                 yield "pick", n, norm(n)
             elif call_name(n) == "next" and n.args and isinstance(n.args[0], ast.Call) and call_name(n.args[0]) == "iter" and n.args[0].args and is_set_expr(n.args[0].args[0], names):
                 yield "pick", n, norm(n)
+            elif (call_name(n) in ("dict.fromkeys", "OrderedDict.fromkeys", "fromkeys") or (isinstance(n.func, ast.Attribute) and n.func.attr in ("fromkeys", "join"))) and n.args and is_set_expr(n.args[0], names):
+                # a dict (insertion ordered) or a string built from a set keeps the set's iteration order
+                yield "sequence", n, norm(n)
             elif call_name(n) in ("list", "tuple") and len(n.args) == 1 and is_set_expr(n.args[0], names):
                 par = n._parent
                 # list(S) only as a snapshot to iterate while mutating is judged at the loop
@@ -155,7 +158,7 @@ def sinks(project, fn, per_class, by_attr):
                         break
                 if eff is not None:
                     yield "loop", n, "for %s in %s: … %s" % (norm(n.target), norm(n.iter), norm(eff)[:50])
-        elif isinstance(n, ast.ListComp):
+        elif isinstance(n, (ast.ListComp, ast.DictComp)):
             g = n.generators[0]
             if is_set_expr(g.iter, names):
                 yield "sequence", n, norm(n)[:80]
